@@ -804,6 +804,9 @@ static void Regress()
       MessageRef um = GetMessageFromPool(7777); (void)um()->AddInt32(FIELD_ID, 4242); (void)um()->AddString(PR_NAME_SESSION, r.c[2]->sid.c_str()); (void)um()->AddString(PR_NAME_KEYS, "sound"); r.c[0]->Send(um); r.B.Settle();
       bool ok = false; for (size_t j = 0; j < r.c[2]->got.size(); j++) { const Message & m = *r.c[2]->got[j](); if (m.GetInt32(FIELD_ID) == 4242) ok = (r.c[0]->sid == m.GetString(PR_NAME_SESSION)()); }
       if (!ok) vh::viol("regress|sender_field", "a forged `session` field was not replaced by the sender's id");
+      // observation only: the same forgery as an int32 field (the server replaces string fields only)
+      MessageRef ui = GetMessageFromPool(7777); (void)ui()->AddInt32(FIELD_ID, 4243); (void)ui()->AddInt32(PR_NAME_SESSION, atoi(r.c[1]->sid.c_str())); (void)ui()->AddString(PR_NAME_KEYS, "sound"); r.c[0]->Send(ui); r.B.Settle();
+      for (size_t j = 0; j < r.c[2]->got.size(); j++) { const Message & m = *r.c[2]->got[j](); int32 v; if (m.GetInt32(FIELD_ID) == 4243) vh::stat((m.FindInt32(PR_NAME_SESSION, v).IsOK() && v == atoi(r.c[1]->sid.c_str())) ? "observed_int32_session_field_forgery_delivered_unchanged" : "observed_int32_session_field_forgery_neutralised"); }
    }
    vh::begin_case(5);
    { // the example in CheckChildForTraversal's comment ("/j*/k*" + "/k*/j*" must not match /jeremy/jenny), one level down, in process
